@@ -54,17 +54,17 @@ Qed.
 Theorem fstep_inv t o : finv t -> finv (fst (fstep t o)).
 Proof.
   intros Hinv. pose proof Hinv as (Hro & Hrw & Hex & Hnd).
-  destruct o as [h ro check|h|h|h|b|b]; cbn [fstep].
+  destruct o as [h ro check|h|h|h|b|b|b]; cbn [fstep].
   - destruct (find_handle t h) eqn:Ef; [exact Hinv|].
     destruct (negb (dir_ok t)); [exact Hinv|].
     destruct ro.
     + destruct (excl t) eqn:Ee; [exact Hinv|].
-      destruct (idx_bad t && check); [exact Hinv|].
+      destruct (log_bad t && check); [exact Hinv|]. destruct (idx_bad t && check); [exact Hinv|].
       cbn [fst]. unfold finv. cbn [handles shared excl]. rewrite ?Ee in *.
       unfold count_mode in *. cbn [filter snd length]. repeat split; try lia; try discriminate.
       cbn [map fst]. constructor; [now apply find_handle_none_notin|assumption].
     + destruct (excl t || negb (Nat.eqb (shared t) 0)) eqn:Ee; [exact Hinv|].
-      destruct (idx_bad t); [exact Hinv|].
+      destruct (log_bad t && check); [exact Hinv|]. destruct (idx_bad t); [exact Hinv|].
       cbn [fst]. unfold finv. cbn [handles shared excl].
       assert (He0 : excl t = false) by (destruct (excl t); [discriminate|reflexivity]).
       assert (Hs0 : shared t = O) by (destruct (shared t); [reflexivity|rewrite He0 in Ee; discriminate]).
@@ -81,6 +81,7 @@ Proof.
     + repeat split; try lia; try (now apply remove_nodup); try (intros He; specialize (Hex He); lia).
   - destruct (find_handle t h) as [[]|]; exact Hinv.
   - destruct (find_handle t h) as [[]|]; exact Hinv.
+  - exact Hinv.
   - exact Hinv.
   - exact Hinv.
 Qed.
@@ -130,8 +131,8 @@ Theorem failed_open_releases t h ro check c : fstep t (FOpen h ro check) = (fst 
 Proof.
   cbn [fstep]. destruct (find_handle t h); [discriminate|].
   destruct (negb (dir_ok t)); [reflexivity|]. destruct ro.
-  - destruct (excl t); [reflexivity|]. destruct (idx_bad t && check); [reflexivity|discriminate].
-  - destruct (excl t || negb (Nat.eqb (shared t) 0)); [reflexivity|]. destruct (idx_bad t); [reflexivity|discriminate].
+  - destruct (excl t); [reflexivity|]. destruct (log_bad t && check); [reflexivity|]. destruct (idx_bad t && check); [reflexivity|discriminate].
+  - destruct (excl t || negb (Nat.eqb (shared t) 0)); [reflexivity|]. destruct (log_bad t && check); [reflexivity|]. destruct (idx_bad t); [reflexivity|discriminate].
 Qed.
 
 Theorem readonly_rejects t h :
